@@ -262,11 +262,12 @@ func c05RunStream(e *Env, msgs []c05Msg, stream []byte, end c05End, frags []int,
 	e.Act("end:"+end.kind, "")
 
 	var ms0 runtime.MemStats
-	if badlenHdrEnd >= 0 {
-		runtime.ReadMemStats(&ms0)
-	}
 	consumed := 0
 	for i := 0; ; i++ {
+		if badlenHdrEnd >= 0 && i == len(expect) {
+			// measure only the call that meets the bad header (earlier, valid messages may be MiBs)
+			runtime.ReadMemStats(&ms0)
+		}
 		m, err := safeReadMessage(e, r)
 		if e.Failed() {
 			return
@@ -309,7 +310,7 @@ func c05RunStream(e *Env, msgs []c05Msg, stream []byte, end c05End, frags []int,
 			e.Fail("C05/short-declared-length/read-on", "declared length %d: reader consumed %d bytes past the header (%d further Read calls)", end.decl, r.pos-badlenHdrEnd, r.CallsAfter)
 			return
 		}
-		if grown := ms1.TotalAlloc - ms0.TotalAlloc; grown > 8<<20 {
+		if grown := ms1.TotalAlloc - ms0.TotalAlloc; ms0.TotalAlloc > 0 && grown > 1<<20 {
 			e.Fail("C05/short-declared-length/alloc", "declared length %d: %d bytes allocated while rejecting", end.decl, grown)
 		}
 	}
